@@ -22,14 +22,23 @@ def to_smt2(ob: Obligation) -> str:
     return s.to_smt2()
 
 
+_OBS: list = []  # obligations of the current batch, inherited by the forked workers (no SMT-LIB round trip needed)
+
+
 def _solve_one(task):
-    name, smt2, timeout_ms, want_model = task
+    idx, timeout_ms, want_model = task
+    ob = _OBS[idx]
+    name = ob.name
     t0 = time.time()
     res, model, backend = "unknown", "", "z3-5.1(py)"
     try:
         s = z3.Solver()
         s.set("timeout", timeout_ms)
-        s.from_string(smt2)
+        for h in ob.hyps:
+            s.add(h)
+        s.add(z3.Not(ob.goal))
+        for nm, term in ob.tracked.items():
+            s.add(z3.Const(f"track!{nm}", term.sort()) == term)
         r = s.check()
         res = str(r)
         if r == z3.sat and want_model:
@@ -40,8 +49,14 @@ def _solve_one(task):
             model = s.reason_unknown()
     except Exception as e:  # noqa: BLE001
         res, model = "error", repr(e)
+    smt2 = ""
     if res in ("unknown", "error"):
-        # second back end: cvc5 CLI, then the other z3 build
+        # second back end: cvc5 CLI, then the other z3 build (through SMT-LIB; skipped when the dump is not re-parsable)
+        try:
+            smt2 = to_smt2(ob)
+        except Exception:  # noqa: BLE001
+            smt2 = ""
+    if smt2:
         with tempfile.NamedTemporaryFile("w", suffix=".smt2", delete=False, dir=os.environ.get("PYVC_TMP", None)) as f:
             f.write(smt2)
             path = f.name
@@ -59,24 +74,21 @@ def _solve_one(task):
                         break
         finally:
             os.unlink(path)
-    return name, res, backend, time.time() - t0, model
+    return idx, res, backend, time.time() - t0, model
 
 
 def discharge(obs: list[Obligation], timeout_ms: int = 10000, procs: int | None = None, want_model: bool = True):
     """Fill result/backend/seconds/model of each obligation."""
+    global _OBS
     procs = procs or min(16, os.cpu_count() or 4)
-    tasks = []
-    byname = {}
-    for ob in obs:
-        if ob.result:
-            continue
-        ob.smt2 = to_smt2(ob)
-        byname[ob.name] = ob
-        tasks.append((ob.name, ob.smt2, timeout_ms, want_model))
-    if not tasks:
+    todo = [ob for ob in obs if not ob.result]
+    if not todo:
         return
+    _OBS = todo
+    tasks = [(i, timeout_ms, want_model) for i in range(len(todo))]
     ctx = mp.get_context("fork")
     with ctx.Pool(min(procs, len(tasks))) as pool:
-        for name, res, backend, secs, model in pool.imap_unordered(_solve_one, tasks, chunksize=1):
-            ob = byname[name]
+        for idx, res, backend, secs, model in pool.imap_unordered(_solve_one, tasks, chunksize=1):
+            ob = todo[idx]
             ob.result, ob.backend, ob.seconds, ob.model = res, backend, secs, model
+    _OBS = []
